@@ -1237,7 +1237,9 @@ def main(opts):
 def _agg_digest(a):
     import json
 
-    keys = ("runs", "changed", "outcomes", "fault_kinds", "triples", "steps_total", "raise_sites", "digest_full")
+    # verdicts only: step counts may legitimately depend on what ran earlier in the same batch process
+    # (e.g. a correct memo table makes the second call cheaper), and batches differ between layouts
+    keys = ("runs", "changed", "outcomes", "fault_kinds", "triples", "raise_sites", "digest_verdict")
     return core.sha256_hex(json.dumps({k: a[k] for k in keys}, sort_keys=True).encode())
 
 
